@@ -7,6 +7,8 @@ package main
 // the tree; the Lean driver compares trees with the model's documents (lean/Orb/GeoJSON.lean).
 //
 // Tree tokens (prefix form):   n | t | f | d <16hex> | s x<hex utf8> | a <n> tree* | o <n> (x<hex> tree)*
+//                              B   (bson only: a boolean whose payload byte is neither 0 nor 1 — the
+//                                   element can be skipped and copied raw, every typed read of it fails)
 // input only:                  i <decimal>   (a Go int)
 // Feature tokens:              F <id: - | tree> <bbox: - | b n hex*> <gval> <props: - | o …>
 // FeatureCollection tokens:    FC <bbox> <features: - | l n (N | F…)*> <extra: - | o …>
@@ -37,7 +39,8 @@ func init() { register(&Prop{ID: "C02", Run: runC02, Gen: genC02}) }
 // document trees
 
 type jnode struct {
-	k    byte // n t f d s a o X(exotic) i(int, input only)
+	k    byte // n t f d s a o X(exotic) B(bad boolean byte, in i) i(int, input only);
+	//          generator only: 3 (int32 i), 6 (int64 i), E (i-th exotic bson value)
 	f    float64
 	i    int
 	s    string
@@ -63,9 +66,14 @@ func xs(s string) string { return "x" + hex.EncodeToString([]byte(s)) }
 
 func (n *jnode) write(sb *strings.Builder) {
 	switch n.k {
-	case 'n', 't', 'f', 'X':
+	case 'n', 't', 'f', 'X', 'B':
 		sb.WriteByte(' ')
 		sb.WriteByte(n.k)
+	case 'E':
+		sb.WriteString(" X")
+	case '3', '6':
+		sb.WriteString(" i ")
+		sb.WriteString(strconv.Itoa(n.i))
 	case 'd':
 		sb.WriteString(" d ")
 		sb.WriteString(fb(n.f))
@@ -246,6 +254,9 @@ func bsonValueTree(v bsoncore.Value, depth int) *jnode {
 		if !ok {
 			return &jnode{k: 'X'}
 		}
+		if v.Data[0] > 1 { // bsoncore reads any non-1 byte as false; the value reader rejects it when it is READ
+			return &jnode{k: 'B', i: int(v.Data[0])}
+		}
 		return jbool(b)
 	case bsontype.Null:
 		return jnull()
@@ -291,7 +302,13 @@ func bsonDocTree(d bsoncore.Document, isArr bool, depth int) *jnode {
 	return n
 }
 
-func bsonTree(data []byte) (*jnode, bool) {
+func bsonTree(data []byte) (n *jnode, ok bool) {
+	// bsoncore itself panics on some corrupt lengths (Document.Validate on a length field of 0: d[-1])
+	defer func() {
+		if recover() != nil {
+			n, ok = nil, false
+		}
+	}()
 	d := bsoncore.Document(data)
 	if len(data) < 5 || d.Validate() != nil {
 		return nil, false
@@ -364,6 +381,8 @@ func (r *tokReader) tree() *jnode {
 		return jbool(true)
 	case "f":
 		return jbool(false)
+	case "B":
+		return &jnode{k: 'B', i: 2}
 	case "d":
 		return jnum(r.f())
 	case "i":
@@ -409,12 +428,18 @@ func (n *jnode) goValue() interface{} {
 		return nil
 	case 't':
 		return true
-	case 'f':
+	case 'f', 'B':
 		return false
 	case 'd':
 		return n.f
 	case 'i':
 		return n.i
+	case '3':
+		return int32(n.i)
+	case '6':
+		return int64(n.i)
+	case 'E':
+		return nil
 	case 's':
 		return n.s
 	case 'a':
@@ -436,12 +461,14 @@ func (n *jnode) goValue() interface{} {
 // jsonText serialises a tree as JSON text (duplicate keys and any member order are kept).
 func (n *jnode) jsonText(sb *strings.Builder) {
 	switch n.k {
-	case 'n', 'X':
+	case 'n', 'X', 'E':
 		sb.WriteString("null")
 	case 't':
 		sb.WriteString("true")
-	case 'f':
+	case 'f', 'B':
 		sb.WriteString("false")
+	case '3', '6':
+		sb.WriteString(strconv.Itoa(n.i))
 	case 'd':
 		if math.IsInf(n.f, 1) || math.IsNaN(n.f) {
 			sb.WriteString("1e999")
@@ -489,6 +516,18 @@ func (n *jnode) bsonValue(ints func() int) interface{} {
 		return true
 	case 'f':
 		return false
+	case 'B':
+		b := byte(n.i)
+		if b < 2 {
+			b = 2
+		}
+		return badBool(b)
+	case '3':
+		return int32(n.i)
+	case '6':
+		return int64(n.i)
+	case 'E':
+		return c02Exotics[((n.i%len(c02Exotics))+len(c02Exotics))%len(c02Exotics)]
 	case 'd':
 		if n.f == math.Trunc(n.f) && math.Abs(n.f) < 1<<31 && !(n.f == 0 && math.Signbit(n.f)) {
 			switch ints() {
@@ -517,6 +556,22 @@ func (n *jnode) bsonValue(ints func() int) interface{} {
 		return d
 	}
 	return nil
+}
+
+// badBool marshals as a BSON boolean element whose payload byte is neither 0 nor 1.
+type badBool byte
+
+func (b badBool) MarshalBSONValue() (bsontype.Type, []byte, error) {
+	return bsontype.Boolean, []byte{byte(b)}, nil
+}
+
+// BSON values outside the tree alphabet (the tree shows X: only panics / time / allocation are judged)
+var c02Exotics = []interface{}{
+	primitive.ObjectID{1, 2, 3, 4, 5, 6, 7, 8, 9, 10, 11, 12}, primitive.DateTime(1), primitive.Binary{Subtype: 0, Data: []byte{1, 2}},
+	primitive.Binary{Subtype: 0x80, Data: nil}, primitive.NewDecimal128(1, 2), primitive.Regex{Pattern: "a", Options: "i"},
+	primitive.Timestamp{T: 1, I: 2}, primitive.MinKey{}, primitive.MaxKey{}, primitive.Undefined{}, primitive.JavaScript("x"),
+	primitive.Symbol("Point"), primitive.DBPointer{DB: "d", Pointer: primitive.ObjectID{1}},
+	primitive.CodeWithScope{Code: "c", Scope: bson.D{{Key: "a", Value: int32(1)}}}, int64(1) << 60, int64(-1<<63),
 }
 
 // ---------------------------------------------------------------------------------------------
@@ -959,6 +1014,20 @@ func runGeoJSONHostile(in []string) string {
 	var tree string
 	var res [6]string
 	var ms0, ms1 runtime.MemStats
+	decodeAll := func() {
+		if kind == "json" {
+			guard(func() string { geojson.UnmarshalGeometry(cp()); return "" })
+			guard(func() string { var g *geojson.Geometry; json.Unmarshal(cp(), &g); return "" })
+			guard(func() string { geojson.UnmarshalFeature(cp()); return "" })
+			guard(func() string { var f *geojson.Feature; json.Unmarshal(cp(), &f); return "" })
+			guard(func() string { geojson.UnmarshalFeatureCollection(cp()); return "" })
+			guard(func() string { var fc *geojson.FeatureCollection; json.Unmarshal(cp(), &fc); return "" })
+		} else {
+			guard(func() string { bson.Unmarshal(cp(), &geojson.Geometry{}); return "" })
+			guard(func() string { bson.Unmarshal(cp(), &geojson.Feature{}); return "" })
+			guard(func() string { bson.Unmarshal(cp(), &geojson.FeatureCollection{}); return "" })
+		}
+	}
 	if kind == "json" {
 		n, ok := parseJSONTree(data)
 		if !ok {
@@ -1001,8 +1070,21 @@ func runGeoJSONHostile(in []string) string {
 	if bytes.Equal(data, []byte("null")) {
 		rawnull = "1"
 	}
+	// TotalAlloc is process-wide and the harness has other goroutines (driver pipe, bookkeeping maps):
+	// a suspicious delta is measured again (up to three more times) and the smallest one kept — the
+	// decoders are deterministic in what they allocate.  (Not for the huge quadratic-nesting cases.)
+	alloc := ms1.TotalAlloc - ms0.TotalAlloc
+	lin := uint64(1024 * len(data))
+	for try := 0; try < 3 && alloc > lin+(256<<10) && alloc < lin+(256<<20); try++ {
+		runtime.ReadMemStats(&ms0)
+		decodeAll()
+		runtime.ReadMemStats(&ms1)
+		if a := ms1.TotalAlloc - ms0.TotalAlloc; a < alloc {
+			alloc = a
+		}
+	}
 	return fmt.Sprintf("%s ; rawnull %s ; ug %s ; ugp %s ; uf %s ; ufp %s ; ufc %s ; ufcp %s ; alloc %d %d",
-		tree, rawnull, res[0], res[1], res[2], res[3], res[4], res[5], ms1.TotalAlloc-ms0.TotalAlloc, len(data))
+		tree, rawnull, res[0], res[1], res[2], res[3], res[4], res[5], alloc, len(data))
 }
 
 // ---------------------------------------------------------------------------------------------
@@ -1217,6 +1299,8 @@ func genC02(c *Ctx) {
 		c.Case("fc", "FC - - -")
 		c.Case("fc", "FC b 0 l 0 o 0")
 	}
+	genGeoJSONHostileCorpus(c, func(input string) { c.Case("hostile", input) })
+	genGeoJSONHostileTyped(c, true, func(input string) { c.Case("hostile", input) })
 	for k := 0; k < c.Budget && !c.Exhausted(); k++ {
 		g := c02GenGeom(c, true)
 		c.Case("geom", gs(g))
@@ -1306,7 +1390,20 @@ func c02Mutate(c *Ctx, root *jnode) *jnode {
 	var all []*jnode
 	root.nodes(&all)
 	n := all[r.Intn(len(all))]
-	switch r.Intn(12) {
+	switch r.Intn(15) {
+	case 12, 13: // typed-value substitution: any node (mostly coordinates) becomes a value of another BSON kind
+		*n = *c02TypedKind(r.Intn(c02TypedKinds))
+	case 14: // … or such a value is added as an element / member
+		v := c02TypedKind(r.Intn(c02TypedKinds))
+		if n.k == 'a' {
+			i := r.Intn(len(n.arr) + 1)
+			n.arr = append(n.arr[:i], append([]*jnode{v}, n.arr[i:]...)...)
+		} else if n.k == 'o' {
+			k := []string{"type", "coordinates", "geometries", "geometry", "properties", "id", "bbox", "features", "Type", "x"}[r.Intn(10)]
+			n.set(k, v)
+		} else {
+			*n = *v
+		}
 	case 0, 1: // replace the node
 		*n = *c02Junk(c)
 	case 2: // delete a member / element
@@ -1472,6 +1569,8 @@ func c02SeedTree(c *Ctx) *jnode {
 // arity and depth, unknown types, key case, member order), text-level damage (truncation, padding,
 // deep nesting) and, once per run, a small exhaustive family of tiny documents.
 func genGeoJSONHostile(c *Ctx, emit func(input string)) {
+	genGeoJSONHostileCorpus(c, emit)
+	genGeoJSONHostileTyped(c, c.Tier == "thorough", emit)
 	if c.Shard == 0 || c.Tier == "thorough" {
 		genGeoJSONHostileFixed(c, emit)
 	}
@@ -1529,6 +1628,149 @@ func genGeoJSONHostileN(c *Ctx, n int, emit func(input string)) {
 			emit("json " + hexOrEmpty([]byte(s)))
 		default:
 			emit(hostileJSON(t))
+		}
+	}
+}
+
+// corpus of past disagreements (c02_corpus.go: one `json|bson <hex>` per line, `#` comments): emitted first.
+
+func genGeoJSONHostileCorpus(c *Ctx, emit func(input string)) {
+	if c.Shard != 0 {
+		return
+	}
+	for _, line := range strings.Split(c02HostileCorpus, "\n") {
+		line = strings.TrimSpace(line)
+		if line == "" || strings.HasPrefix(line, "#") {
+			continue
+		}
+		f := strings.Fields(line)
+		if len(f) == 2 && (f[0] == "json" || f[0] == "bson") {
+			emit(f[0] + " " + f[1])
+		}
+	}
+}
+
+// typed-value substitution: the values a node is replaced by — every BSON scalar kind the harness can
+// emit (null, booleans, a boolean with a bad payload byte, int32, int64, doubles incl. NaN / Inf / -0,
+// strings), container shapes, and the BSON kinds outside the tree alphabet (ObjectID, DateTime, Binary,
+// Decimal128, Regex, Timestamp, Min/MaxKey, Undefined, JavaScript, Symbol, DBPointer, CodeWithScope,
+// int64 beyond 2^53).
+const c02ModelKinds = 23
+
+var c02TypedKinds = c02ModelKinds + len(c02Exotics)
+
+func c02TypedKind(i int) *jnode {
+	switch i {
+	case 0:
+		return jnull()
+	case 1:
+		return jbool(true)
+	case 2:
+		return jbool(false)
+	case 3:
+		return &jnode{k: 'B', i: 2}
+	case 4:
+		return &jnode{k: 'B', i: 0xff}
+	case 5:
+		return &jnode{k: '3', i: 1}
+	case 6:
+		return &jnode{k: '3', i: -7}
+	case 7:
+		return &jnode{k: '6', i: 3}
+	case 8:
+		return &jnode{k: '6', i: 1 << 53}
+	case 9:
+		return jnum(1.5)
+	case 10:
+		return jnum(math.NaN())
+	case 11:
+		return jnum(math.Inf(1))
+	case 12:
+		return jnum(math.Copysign(0, -1))
+	case 13:
+		return jstr("x")
+	case 14:
+		return jstr("")
+	case 15:
+		return jstr("Point")
+	case 16:
+		return jarr()
+	case 17:
+		return jarr(jnum(1), jnum(2))
+	case 18:
+		return jarr(jarr(jnum(1), jnum(2)))
+	case 19:
+		return jobj()
+	case 20:
+		return jobj().set("type", jstr("Point")).set("coordinates", jarr(jnum(1), jnum(2)))
+	case 21:
+		return jobj().set("0", jnum(1)).set("1", jnum(2))
+	case 22:
+		return jarr(jnum(1), &jnode{k: 'B', i: 3})
+	}
+	return &jnode{k: 'E', i: i - c02ModelKinds}
+}
+
+// the documents the substitution runs over: every geometry type with two elements at some nesting
+// level and one at the others, a collection, a feature with every member, a feature collection
+func c02TypedBases() []*jnode {
+	p := func(x, y float64) *jnode { return jarr(jnum(x), jnum(y)) }
+	g := func(ty string, co *jnode) *jnode { return jobj().set("type", jstr(ty)).set("coordinates", co) }
+	point := func() *jnode { return g("Point", p(1.5, 2)) }
+	ls := func() *jnode { return g("LineString", jarr(p(1, 2), p(3, 4.5))) }
+	feat := func() *jnode {
+		return jobj().set("id", jstr("a")).set("type", jstr("Feature")).set("bbox", jarr(jnum(1), jnum(2), jnum(3), jnum(4.5))).
+			set("geometry", ls()).
+			set("properties", jobj().set("a", jnum(1)).set("b", jobj().set("c", jarr(jnum(1), jstr("x")))))
+	}
+	return []*jnode{
+		point(),
+		g("MultiPoint", jarr(p(1, 2), p(3, 4.5))),
+		ls(),
+		g("MultiLineString", jarr(jarr(p(1, 2), p(3, 4.5)), jarr(p(5, 6)))),
+		g("Polygon", jarr(jarr(p(0, 0), p(1, 0.5), p(0, 0)), jarr(p(5, 6)))),
+		g("MultiPolygon", jarr(jarr(jarr(p(1, 2), p(3, 4.5))), jarr(jarr(p(5, 6))))),
+		jobj().set("type", jstr("GeometryCollection")).set("geometries", jarr(point(),
+			jobj().set("type", jstr("GeometryCollection")).set("geometries", jarr(ls())))),
+		feat(),
+		jobj().set("type", jstr("FeatureCollection")).set("bbox", jarr(jnum(1), jnum(2), jnum(3), jnum(4.5))).
+			set("features", jarr(feat(), jobj().set("type", jstr("Feature")).set("geometry", point()).set("properties", jnull()))).
+			set("extra", jobj().set("k", jarr(jnum(1)))),
+	}
+}
+
+// genGeoJSONHostileTyped: at EVERY node of every base document (so: the coordinates value and each of
+// its nesting levels down to the numbers, bbox and its elements, features and its elements, id, type,
+// geometry, geometries, properties and the values inside) substitute every kind; as BSON (all kinds)
+// and as JSON text (the kinds JSON can spell).  Sharded.  `full` = the whole family (C02 always, C05
+// thorough); otherwise (C05 quick, whose GeoJSON stream is capped at a quarter of the budget) every
+// node still gets every modelled BSON kind except three near-duplicates, and a rotating quarter of
+// the JSON spellings and of the kinds outside the alphabet.
+func genGeoJSONHostileTyped(c *Ctx, full bool, emit func(input string)) {
+	idx := 0
+	for _, base := range c02TypedBases() {
+		var all []*jnode
+		base.nodes(&all)
+		for j := range all {
+			for k := 0; k < c02TypedKinds; k++ {
+				idx++
+				if !c.Mine(idx) {
+					continue
+				}
+				if !full && ((k >= c02ModelKinds && (k+j)%4 != 0) || k == 4 || k == 6 || k == 14) {
+					continue
+				}
+				t := base.clone()
+				var nodes []*jnode
+				t.nodes(&nodes)
+				*nodes[j] = *c02TypedKind(k)
+				if s, ok := hostileBSON(c, t); ok {
+					emit(s)
+				}
+				if k < c02ModelKinds && k != 4 && k != 22 && (full || (k+j)%4 == 1) {
+					emit(hostileJSON(t))
+				}
+			}
 		}
 	}
 }
